@@ -107,19 +107,13 @@ Qed.
 
 (* ------------------------------------------------------------------ Prefix2bin128 *)
 
-Lemma p2b_loop_pos : forall bs n, (1 <= n)%Z -> p2b_loop bs n = firstn (Z.to_nat n) bs.
+Lemma p2b_loop_spec : forall bs n, (0 <= n)%Z -> p2b_loop bs n = firstn (Z.to_nat n) bs.
 Proof.
   induction bs as [|b rest IH]; intros n Hn.
   - now rewrite firstn_nil.
-  - cbn [p2b_loop]. destruct (n - 1 =? 0)%Z eqn:E.
-    + replace (Z.to_nat n) with 1%nat by lia. reflexivity.
+  - cbn [p2b_loop]. destruct (n =? 0)%Z eqn:E.
+    + replace n with 0%Z by lia. reflexivity.
     + rewrite IH by lia. replace (Z.to_nat n) with (S (Z.to_nat (n - 1))) by lia. reflexivity.
-Qed.
-
-Lemma p2b_loop_nonpos : forall bs n, (n <= 0)%Z -> p2b_loop bs n = bs.
-Proof.
-  induction bs as [|b rest IH]; intros n Hn; [reflexivity|].
-  cbn [p2b_loop]. destruct (n - 1 =? 0)%Z eqn:E; [lia|]. now rewrite IH by lia.
 Qed.
 
 Lemma as16_bits : forall p, flat_map byte_bits (as16 p) = bits128 (addr128 p).
@@ -129,17 +123,11 @@ Lemma p2b_count : forall p,
   (Z.of_N (p_bits p) + (if p_is4 p then 96 else 0))%Z = Z.of_N (len128 p).
 Proof. intros p. unfold len128. destruct (p_is4 p); lia. Qed.
 
-Lemma prefix2bin128_pos : forall p, 1 <= len128 p -> prefix2bin128 p = prefix_bits p.
+Lemma prefix2bin128_spec : forall p, prefix2bin128 p = prefix_bits p.
 Proof.
-  intros p H. unfold prefix2bin128, prefix_bits. cbv zeta. rewrite as16_bits, p2b_count.
-  rewrite p2b_loop_pos by lia.
+  intros p. unfold prefix2bin128, prefix_bits. cbv zeta. rewrite as16_bits, p2b_count.
+  rewrite p2b_loop_spec by lia.
   replace (Z.to_nat (Z.of_N (len128 p))) with (N.to_nat (len128 p)) by lia. reflexivity.
-Qed.
-
-Lemma prefix2bin128_zero : forall p, len128 p = 0 -> prefix2bin128 p = bits128 (addr128 p).
-Proof.
-  intros p H. unfold prefix2bin128. cbv zeta. rewrite as16_bits, p2b_count.
-  now rewrite p2b_loop_nonpos by lia.
 Qed.
 
 Lemma firstn_128_bits128 : forall a, firstn 128 (bits128 a) = bits128 a.
@@ -147,20 +135,11 @@ Proof. intros a. apply firstn_all2. unfold bits128. now rewrite bits_be_length. 
 
 Lemma probe_bin_spec : forall a, probe_bin a = bits128 a.
 Proof.
-  intros a. unfold probe_bin. rewrite prefix2bin128_pos by (cbn; lia).
+  intros a. unfold probe_bin. rewrite prefix2bin128_spec.
   unfold prefix_bits. cbn [len128 addr128 p_is4 p_addr p_bits].
   change (N.to_nat 128) with 128%nat. apply firstn_128_bits128.
 Qed.
 
-
-Lemma prefix2bin128_effective : forall p, prefix2bin128 p = prefix_bits (effective p).
-Proof.
-  intros p. unfold effective. destruct (len128 p =? 0) eqn:E.
-  - rewrite prefix2bin128_zero by lia. unfold prefix_bits.
-    cbn [len128 addr128 p_is4 p_addr p_bits]. change (N.to_nat 128) with 128%nat.
-    now rewrite firstn_128_bits128.
-  - apply prefix2bin128_pos. lia.
-Qed.
 
 (* ------------------------------------------------------------------ trie *)
 
@@ -194,50 +173,29 @@ Proof.
   rewrite HLen. unfold prefix_bits. rewrite firstn_bits128_eq_iff by assumption. split; congruence.
 Qed.
 
-Lemma effective_wf : forall p, wf_prefix p = true -> wf_prefix (effective p) = true.
-Proof.
-  intros p H. unfold effective. destruct (len128 p =? 0); [|assumption].
-  apply wf_prefix_bounds in H as [H _]. unfold wf_prefix. cbn [p_is4 p_addr p_bits].
-  apply andb_true_iff. split; [now apply N.ltb_lt | reflexivity].
-Qed.
-
-Lemma trie_match_exact : forall ps a,
+Lemma trie_contains_proof : forall ps a,
   forallb wf_prefix ps = true -> wf_addr a = true ->
-  trie_match ps a = set_contains (map effective ps) a.
+  trie_match ps a = set_contains ps a.
 Proof.
   intros ps a Hps Ha. unfold trie_match, has_prefix, new_trie_from_prefixes, set_contains.
   rewrite probe_bin_spec. induction ps as [|p ps IH]; [reflexivity|].
   cbn [forallb] in Hps. apply andb_true_iff in Hps as [Hp Hps].
   cbn [map existsb]. rewrite IH by assumption. f_equal.
-  rewrite prefix2bin128_effective. apply is_prefix_contains; [now apply effective_wf | assumption].
+  rewrite prefix2bin128_spec. now apply is_prefix_contains.
 Qed.
 
-
-Lemma effective_id : forall ps, no_v6_len0 ps = true -> map effective ps = ps.
+(* the loop as it was before commit 1e92e18 (test after the write): an IPv6 /0 prefix came out as all 128 bits *)
+Fixpoint p2b_loop_before_fix (bs : list bool) (n : Z) : list bool :=
+  match bs with
+  | [] => []
+  | b :: rest => b :: (if (n - 1 =? 0)%Z then [] else p2b_loop_before_fix rest (n - 1))
+  end.
+Lemma before_fix_len0 : forall bs, p2b_loop_before_fix bs 0 = bs.
 Proof.
-  induction ps as [|p ps IH]; intros H; [reflexivity|].
-  cbn [no_v6_len0 forallb] in H. apply andb_true_iff in H as [Hp Hps].
-  cbn [map]. rewrite IH by assumption. f_equal. unfold effective.
-  destruct (len128 p =? 0); [discriminate | reflexivity].
-Qed.
-
-Lemma trie_contains_partial_proof : forall ps a,
-  forallb wf_prefix ps = true -> wf_addr a = true -> no_v6_len0 ps = true ->
-  trie_match ps a = set_contains ps a.
-Proof. intros. rewrite trie_match_exact by assumption. now rewrite effective_id. Qed.
-
-Lemma prefix2bin_refuted_proof :
-  exists p, wf_prefix p = true /\ prefix2bin128 p <> prefix_bits p.
-Proof.
-  exists {| p_is4 := false; p_addr := 0; p_bits := 0 |}. split; [reflexivity|].
-  vm_compute. discriminate.
-Qed.
-
-Lemma trie_contains_refuted_proof :
-  exists ps a, forallb wf_prefix ps = true /\ wf_addr a = true /\ trie_match ps a <> set_contains ps a.
-Proof.
-  exists [{| p_is4 := false; p_addr := 0; p_bits := 0 |}], 1.
-  repeat split; vm_compute; discriminate.
+  assert (H : forall bs n, (n <= 0)%Z -> p2b_loop_before_fix bs n = bs).
+  { induction bs as [|b rest IH]; intros n Hn; [reflexivity|].
+    cbn [p2b_loop_before_fix]. destruct (n - 1 =? 0)%Z eqn:E; [lia|]. now rewrite IH by lia. }
+  intros bs. apply H. lia.
 Qed.
 
 (* ------------------------------------------------------------------ LPM keys *)
@@ -630,9 +588,6 @@ Proof.
   change (2 ^ 48) with 281474976710656 in Hm. change (2 ^ 128) with 340282366920938463463374607431768211456. lia.
 Qed.
 
-Lemma mac_no_len0 : forall ms, no_v6_len0 (map mac_prefix ms) = true.
-Proof. induction ms; [reflexivity|]. cbn. assumption. Qed.
-
 Lemma mac_as_prefix_proof : forall big ms m,
   forallb wf_mac ms = true -> wf_mac m = true ->
   trie_match (map mac_prefix ms) m = mac_set_contains ms m
@@ -643,12 +598,18 @@ Proof.
   { unfold wf_mac in Hm. unfold wf_addr. apply N.ltb_lt in Hm. apply N.ltb_lt.
     change (2 ^ 48) with 281474976710656 in Hm. change (2 ^ 128) with 340282366920938463463374607431768211456. lia. }
   split.
-  - rewrite trie_contains_partial_proof; [apply mac_set_spec | now apply mac_wf | assumption | apply mac_no_len0].
+  - rewrite trie_contains_proof; [apply mac_set_spec | now apply mac_wf | assumption].
   - rewrite lpm_key_contains_proof; [apply mac_set_spec | now apply mac_wf | assumption].
 Qed.
 
 (* ------------------------------------------------------------------ rules over the stored sets *)
 
+
+Definition op_all (P : prefix -> bool) (o : op) : bool :=
+  match o with
+  | OpIp _ _ vs => forallb P vs
+  | OpMac _ ms => forallb (fun m => P (mac_prefix m)) ms && P (mac_prefix 0)
+  end.
 
 Section Rules.
   Variable hash : list prefix -> N.
@@ -695,12 +656,6 @@ Proof.
   pose proof (mac_wf ms H) as W. rewrite forallb_forall in *. intros m Hm. apply W. now apply in_map.
 Qed.
 
-Lemma no_len0_op_all : forall o, op_no_v6_len0 o = true -> op_all (fun p => negb (len128 p =? 0)) o = true.
-Proof.
-  intros [src not vs | not ms] H; cbn [op_no_v6_len0 op_all] in *; [assumption|].
-  apply andb_true_iff. split; [|reflexivity]. apply forallb_forall. reflexivity.
-Qed.
-
 Lemma forallb_impl : forall A (f g : A -> bool) l, (forall x, f x = true -> g x = true) ->
   forallb f l = true -> forallb g l = true.
 Proof. intros A f g l H. rewrite !forallb_forall. auto. Qed.
@@ -737,16 +692,15 @@ Lemma match_loop_spec : forall tries rs k bin i,
   wf_packet k = true ->
   (forall r, bin r = probe_bin (target r k)) ->
   (forall r, In r rs -> exists s, nth_error tries (N.to_nat (r_index r)) = Some s
-                                  /\ (forall p, In p s <-> In p (r_values r)) /\ forallb wf_prefix s = true
-                                  /\ no_v6_len0 s = true) ->
+                                  /\ (forall p, In p s <-> In p (r_values r)) /\ forallb wf_prefix s = true) ->
   match_loop (build_userspace tries) rs bin i = Some (first_hit (map spec_rule_of rs) k i).
 Proof.
   intros tries rs k bin. induction rs as [|r rs IH]; intros i Hk Hbin H; [reflexivity|].
-  cbn [match_loop map first_hit]. destruct (H r (or_introl eq_refl)) as [s [Hs [Hm [Hw Hn]]]].
+  cbn [match_loop map first_hit]. destruct (H r (or_introl eq_refl)) as [s [Hs [Hm Hw]]].
   unfold build_userspace at 1. rewrite nth_error_map, Hs. cbn [option_map]. rewrite Hbin.
   change (has_prefix (new_trie_from_prefixes s) (probe_bin (target (r_role r) k)))
     with (trie_match s (target (r_role r) k)).
-  rewrite trie_contains_partial_proof by (auto using target_wf).
+  rewrite trie_contains_proof by (auto using target_wf).
   rewrite (set_contains_members s (r_values r)) by assumption.
   unfold rule_hits. cbn [spec_rule_of sr_set sr_role sr_not].
   rewrite IH by (auto; intros; apply H; now right).
@@ -766,8 +720,7 @@ Qed.
 Lemma match_rules_spec : forall tries rs k,
   wf_packet k = true ->
   (forall r, In r rs -> exists s, nth_error tries (N.to_nat (r_index r)) = Some s
-                                  /\ (forall p, In p s <-> In p (r_values r)) /\ forallb wf_prefix s = true
-                                  /\ no_v6_len0 s = true) ->
+                                  /\ (forall p, In p s <-> In p (r_values r)) /\ forallb wf_prefix s = true) ->
   match_rules tries rs k = Some (first_hit (map spec_rule_of rs) k 0).
 Proof.
   intros tries rs k Hk H. unfold match_rules. cbv zeta.
@@ -787,48 +740,28 @@ Proof.
   eapply nth_error_In; eassumption.
 Qed.
 
-Lemma rules_userspace_partial_proof : forall hash ops k,
-  forallb wf_op ops = true -> forallb op_no_v6_len0 ops = true -> wf_packet k = true ->
+Lemma rules_userspace_proof : forall hash ops k,
+  forallb wf_op ops = true -> wf_packet k = true ->
   let b := run hash ops in
   match_rules (b_tries b) (b_rules b) k = Some (first_hit (map spec_rule_of (b_rules b)) k 0).
 Proof.
-  intros hash ops k Hops Hn Hk b. apply match_rules_spec; [assumption|].
+  intros hash ops k Hops Hk b. apply match_rules_spec; [assumption|].
   intros r Hr. destruct (inv_run hash ops) as [_ I]. destruct (I r Hr) as [s [Hs Hm]].
   exists s. repeat split; try assumption; try (now apply Hm).
-  - apply forallb_forall. intros p Hp.
-    apply (all_P_run hash wf_prefix ops (forallb_impl _ _ _ _ wf_op_all Hops) s); [|assumption].
-    eapply nth_error_In; eassumption.
-  - apply forallb_forall. intros p Hp.
-    apply (all_P_run hash _ ops (forallb_impl _ _ _ _ no_len0_op_all Hn) s); [|assumption].
-    eapply nth_error_In; eassumption.
-Qed.
-
-Lemma rules_userspace_refuted_proof :
-  exists ops k, forallb wf_op ops = true /\ wf_packet k = true /\
-    let b := run hash_lpm_set ops in
-    match_rules (b_tries b) (b_rules b) k <> Some (first_hit (map spec_rule_of (b_rules b)) k 0).
-Proof.
-  exists [OpIp false false [{| p_is4 := false; p_addr := 0; p_bits := 0 |}]],
-         {| k_dst := 1; k_src := 0; k_mac := 0 |}.
-  repeat split. vm_compute. discriminate.
-Qed.
-
-Lemma same_set_refuted_proof :
-  exists ps a, forallb wf_prefix ps = true /\ wf_addr a = true /\ trie_match ps a <> kernel_match false ps a.
-Proof.
-  exists [{| p_is4 := false; p_addr := 0; p_bits := 0 |}], 1.
-  repeat split; vm_compute; discriminate.
+  apply forallb_forall. intros p Hp.
+  apply (all_P_run hash wf_prefix ops (forallb_impl _ _ _ _ wf_op_all Hops) s); [|assumption].
+  eapply nth_error_In; eassumption.
 Qed.
 
 (* ------------------------------------------------------------------ DNS response routing *)
 
 Lemma response_loop_spec : forall rs ips i,
-  forallb wf_resp_rule rs = true -> forallb resp_no_v6_len0 rs = true -> forallb wf_addr ips = true ->
+  forallb wf_resp_rule rs = true -> forallb wf_addr ips = true ->
   response_loop (map (fun r => new_trie_from_prefixes (rr_values r)) rs) rs (map probe_bin ips) i
   = response_first_hit (resp_spec_rules rs) ips i.
 Proof.
-  induction rs as [|r rs IH]; intros ips i Hw Hn Hi; [reflexivity|].
-  cbn [forallb] in Hw, Hn. apply andb_true_iff in Hw as [Hw Hws]. apply andb_true_iff in Hn as [Hn Hns].
+  induction rs as [|r rs IH]; intros ips i Hw Hi; [reflexivity|].
+  cbn [forallb] in Hw. apply andb_true_iff in Hw as [Hw Hws].
   cbn [map response_loop resp_spec_rules response_first_hit].
   assert (E : existsb (has_prefix (new_trie_from_prefixes (rr_values r))) (map probe_bin ips)
               = existsb (set_contains (rr_values r)) ips).
@@ -836,37 +769,22 @@ Proof.
     cbn [forallb] in Hi. apply andb_true_iff in Hi as [Ha Hi].
     cbn [map existsb]. rewrite IHa by assumption. f_equal.
     change (has_prefix (new_trie_from_prefixes (rr_values r)) (probe_bin a)) with (trie_match (rr_values r) a).
-    now apply trie_contains_partial_proof. }
+    now apply trie_contains_proof. }
   rewrite E. fold (resp_spec_rules rs). rewrite IH by assumption.
   destruct (existsb (set_contains (rr_values r)) ips), (rr_not r); reflexivity.
 Qed.
 
-Lemma response_partial_proof : forall rs ips,
-  forallb wf_resp_rule rs = true -> forallb resp_no_v6_len0 rs = true -> forallb wf_addr ips = true ->
+Lemma response_proof : forall rs ips,
+  forallb wf_resp_rule rs = true -> forallb wf_addr ips = true ->
   response_match rs ips = response_first_hit (resp_spec_rules rs) ips 0.
 Proof. intros. now apply response_loop_spec. Qed.
 
-Lemma response_refuted_proof :
-  exists rs ips, forallb wf_resp_rule rs = true /\ forallb wf_addr ips = true /\
-    response_match rs ips <> response_first_hit (resp_spec_rules rs) ips 0.
-Proof.
-  exists [{| rr_not := false; rr_values := [{| p_is4 := false; p_addr := 0; p_bits := 0 |}] |}], [1].
-  repeat split; vm_compute; discriminate.
-Qed.
-
 (* ------------------------------------------------------------------ statements as used by C12_Props *)
 
-Lemma prefix2bin_partial_proof : forall p, wf_prefix p = true ->
-  (len128 p <> 0 -> prefix2bin128 p = prefix_bits p)
-  /\ (len128 p = 0 -> prefix2bin128 p = bits128 (addr128 p)).
-Proof.
-  intros p _. split; intros H; [apply prefix2bin128_pos; lia | now apply prefix2bin128_zero].
-Qed.
-
-Lemma same_set_partial_proof : forall big ps a,
-  forallb wf_prefix ps = true -> wf_addr a = true -> no_v6_len0 ps = true ->
+Lemma same_set_proof : forall big ps a,
+  forallb wf_prefix ps = true -> wf_addr a = true ->
   trie_match ps a = kernel_match big ps a.
-Proof. intros. rewrite trie_contains_partial_proof, lpm_key_contains_proof by assumption. reflexivity. Qed.
+Proof. intros. rewrite trie_contains_proof, lpm_key_contains_proof by assumption. reflexivity. Qed.
 
 Lemma nonvacuous_proof :
   let ps := [ {| p_is4 := true; p_addr := 0x0a010203; p_bits := 8 |};        (* 10.1.2.3/8, unmasked *)
@@ -877,12 +795,14 @@ Lemma nonvacuous_proof :
   let probes := [ v4_mapped 0x0a000000; v4_mapped 0x0affffff; v4_mapped 0x09ffffff; v4_mapped 0x0b000000;
                   0xfffeffffffff; 0x1000000000000; 0x20010db8ffffffffffffffffffffffff;
                   0x20010db9000000000000000000000000; 0 ] in
-  forallb wf_prefix ps = true /\ no_v6_len0 ps = true /\ forallb wf_addr probes = true
+  forallb wf_prefix ps = true /\ forallb wf_addr probes = true
   /\ map (set_contains (firstn 3 ps)) probes = [true; true; false; false; false; false; false; false; false]
   /\ map (set_contains ps) probes = [true; true; true; true; false; false; true; false; false]
   /\ map (trie_match ps) probes = map (set_contains ps) probes
   /\ map (kernel_lookup false ps) probes
-     = [Some 104; Some 105; Some 96; Some 96; None; None; Some 32; None; None].
+     = [Some 104; Some 105; Some 96; Some 96; None; None; Some 32; None; None]
+  /\ (let any6 := [ {| p_is4 := false; p_addr := 0; p_bits := 0 |} ] in           (* ::/0 *)
+      forallb (trie_match any6) probes = true /\ map (kernel_lookup true any6) probes = map (fun _ => Some 0) probes).
 Proof. cbv zeta. repeat split; vm_compute; reflexivity. Qed.
 
 Lemma share_nonvacuous_proof :
@@ -893,31 +813,6 @@ Lemma share_nonvacuous_proof :
   map r_index (b_rules (run hash_lpm_set ops)) = [0; 0; 1; 2]
   /\ map r_index (b_rules (run (fun _ => 7) ops)) = [0; 0; 1; 2]
   /\ length (b_tries (run (fun _ => 7) ops)) = 3%nat
-  /\ forallb wf_op ops = true /\ forallb op_no_v6_len0 ops = true.
+  /\ forallb wf_op ops = true.
 Proof. cbv zeta. repeat split; vm_compute; reflexivity. Qed.
 
-(* ------------------------------------------------------------------ the repair
-   Not part of the model of the code as it stands: with `if n == 0 { return "" }` before the loop of
-   Prefix2bin128 the full statements hold.  Kept so that the model can be switched when the code is fixed. *)
-Definition prefix2bin128_repaired (p : prefix) : list bool :=
-  let n := (Z.of_N (p_bits p) + (if p_is4 p then 96 else 0))%Z in
-  if (n =? 0)%Z then [] else p2b_loop (flat_map byte_bits (as16 p)) n.
-
-Lemma prefix2bin128_repaired_full : forall p, prefix2bin128_repaired p = prefix_bits p.
-Proof.
-  intros p. unfold prefix2bin128_repaired. cbv zeta. rewrite p2b_count.
-  destruct (Z.of_N (len128 p) =? 0)%Z eqn:E.
-  - unfold prefix_bits. replace (len128 p) with 0 by lia. reflexivity.
-  - rewrite <- p2b_count. apply prefix2bin128_pos. lia.
-Qed.
-
-Lemma trie_contains_repaired_full : forall ps a,
-  forallb wf_prefix ps = true -> wf_addr a = true ->
-  has_prefix (map prefix2bin128_repaired ps) (probe_bin a) = set_contains ps a.
-Proof.
-  intros ps a Hps Ha. unfold has_prefix, set_contains. rewrite probe_bin_spec.
-  induction ps as [|p ps IH]; [reflexivity|].
-  cbn [forallb] in Hps. apply andb_true_iff in Hps as [Hp Hps].
-  cbn [map existsb]. rewrite IH by assumption. f_equal.
-  rewrite prefix2bin128_repaired_full. now apply is_prefix_contains.
-Qed.
